@@ -16,6 +16,10 @@ pub mod c09;
 pub mod c10;
 pub mod c11;
 pub mod c12;
+pub mod c13;
+pub mod c15;
+pub mod c16;
+pub mod c19;
 pub mod c14;
 pub mod c17;
 
@@ -34,6 +38,11 @@ pub fn registry() -> Vec<(&'static str, MonitorFn)> {
         ("C10", c10::run as MonitorFn),
         ("C11", c11::run as MonitorFn),
         ("C12", c12::run as MonitorFn),
+        ("C13", c13::run as MonitorFn),
+        ("C14", c14::run as MonitorFn),
+        ("C15", c15::run as MonitorFn),
+        ("C16", c16::run as MonitorFn),
         ("C17", c17::run as MonitorFn),
+        ("C19", c19::run as MonitorFn),
     ]
 }
